@@ -1,6 +1,8 @@
 package rules
 
 import (
+	"go/token"
+
 	"golang.org/x/tools/go/ssa"
 )
 
@@ -33,6 +35,23 @@ func (f *flat) res(v ssa.Value) ssa.Value {
 func (f *flat) deep(v ssa.Value) ssa.Value {
 	for i := 0; i < 8; i++ {
 		n := f.res(stripConvAll(stripIface(f.res(v))))
+		// a load of a closure cell holds what was stored into it, when
+		// exactly one store exists
+		if u, ok := n.(*ssa.UnOp); ok && u.Op == token.MUL {
+			if al, ok := f.res(u.X).(*ssa.Alloc); ok && al.Referrers() != nil {
+				var only *ssa.Store
+				cnt := 0
+				for _, ref := range *al.Referrers() {
+					if st, ok := ref.(*ssa.Store); ok && st.Addr == ssa.Value(al) {
+						only = st
+						cnt++
+					}
+				}
+				if cnt == 1 {
+					n = only.Val
+				}
+			}
+		}
 		if n == v {
 			return v
 		}
@@ -187,6 +206,29 @@ func flattenPaths(fn *ssa.Function, inline func(callee *ssa.Function) bool) []*f
 		add = func(calls []ssa.CallInstruction, depth int) {
 			for _, ci := range calls {
 				callee := ci.Common().StaticCallee()
+				// a function value that is, on this path, a closure made by
+				// the caller: its body is read in place, free variables bound
+				if callee == nil && !ci.Common().IsInvoke() && depth > 0 {
+					if mc, ok := f.res(ci.Common().Value).(*ssa.MakeClosure); ok {
+						if cf, ok := mc.Fn.(*ssa.Function); ok && cf.Blocks != nil {
+							if cc, st := callsInOrder(cf); st {
+								for i, fv := range cf.FreeVars {
+									if i < len(mc.Bindings) {
+										f.alias[fv] = mc.Bindings[i]
+									}
+								}
+								for i, pa := range cf.Params {
+									if i < len(ci.Common().Args) {
+										f.alias[pa] = ci.Common().Args[i]
+									}
+								}
+								f.inlined = append(f.inlined, cf)
+								add(cc, depth+1)
+								continue
+							}
+						}
+					}
+				}
 				if callee != nil && callee.Blocks != nil && depth < 4 && callee != fn && inline(callee) {
 					if cc, st := callsInOrder(callee); st {
 						cargs := ci.Common().Args
